@@ -24,7 +24,7 @@ theorem copyLoop_norm (h : Heap α) {d d' s s' : Arr} (nd : Norm d d') (ns : Nor
   rw [e1, e2, forIdx_rowMajor hp, forIdx_rowMajor hp]
   apply foldIdx_congr (P := fun i => InBounds i shape)
   · intro hh i hi
-    simp only
+    show (do let x ← Nd.get hh s i; Nd.set hh d i x) = (do let x ← Nd.get hh s' i; Nd.set hh d' i x)
     rw [get_norm hh ns gs (by rw [hs]; exact hi)]
     cases Nd.get hh s' i with
     | error e => rfl
@@ -39,24 +39,21 @@ theorem applySlice_norm (h : Heap α) {a a' v v' : Arr} (na : Norm a a') (nv : N
     Nd.applySlice h a loc step v = Nd.applySlice h a' loc step v' := by
   obtain ⟨hl1, _, hl3⟩ := okS.lengths
   have hw := sliceInto_eq ga loc v'.v.dims step hl1 hl3
-  have hsl' : Nd.slice a' loc v'.v.dims step = .ok { a' with v := sliceView a'.v loc v'.v.dims step } := by
-    unfold Nd.slice; rw [hw]; rfl
+  obtain ⟨sl', hsl', gsl, hdsl, hCsl⟩ : ∃ sl', Nd.slice a' loc v'.v.dims step = .ok sl' ∧ Geo sl'.v ∧
+      sl'.v.dims = v'.v.dims ∧ sl'.isC = a'.isC :=
+    ⟨{ a' with v := sliceView a'.v loc v'.v.dims step }, by unfold Nd.slice; rw [hw]; rfl, geo_slice ga okS hw, rfl, rfl⟩
   obtain ⟨sl, hsl, nsl, _⟩ := (slice_norm na loc v'.v.dims step).2 _ hsl'
-  have gsl : Geo (sliceView a'.v loc v'.v.dims step) := geo_slice ga okS hw
   unfold Nd.applySlice
   rw [nv.dims]
   simp only [hsl, hsl', bind, Except.bind]
   rw [na.isC]
-  cases hC : a'.isC with
-  | true =>
-    simp only [if_true]
-    exact copyLoop_norm h nsl nv gsl gv rfl rfl
-  | false =>
-    have e : ({ a' with v := sliceView a'.v loc v'.v.dims step } : Arr) = sl :=
-      nsl.eq_of_go (by rw [nsl.isC]; exact hC)
+  by_cases hC : a'.isC = true
+  · rw [if_pos hC, if_pos hC]
+    exact copyLoop_norm h nsl nv gsl gv hdsl rfl
+  · rw [if_neg hC, if_neg hC]
+    have e : sl' = sl := nsl.eq_of_go (by rw [nsl.isC, hCsl]; simpa using hC)
     subst e
-    simp only [Bool.false_eq_true, if_false]
-    cases hc : (sliceView a'.v loc v'.v.dims step).contiguous with
+    cases hc : sl'.v.contiguous with
     | error e => rfl
     | ok b =>
       simp only
@@ -66,7 +63,7 @@ theorem applySlice_norm (h : Heap α) {a a' v v' : Arr} (na : Norm a a') (nv : N
         rw [unroll_norm h nv gv]
       | false =>
         simp only [Bool.false_eq_true, if_false]
-        exact copyLoop_norm h (Norm.refl _) nv gsl gv rfl rfl
+        exact copyLoop_norm h (Norm.refl _) nv gsl gv hdsl rfl
 
 /-- **transfer: `CopyFrom`** (same shape) -/
 theorem copyFrom_norm (h : Heap α) {a a' v v' : Arr} (na : Norm a a') (nv : Norm v v') (ga : Geo a'.v) (gv : Geo v'.v)
@@ -98,72 +95,114 @@ theorem unshift_reshift (st : Int) {c : Arr} (hC : c.isC = true) : unshift st (r
 /-- the result of `Reshape` on the normal form, translated back -/
 def reshiftRes (st : Int) (p : Heap α × (String ⊕ Arr)) : Heap α × (String ⊕ Arr) := (p.1, p.2.map id (reshift st))
 
+/-- the "reshape to series" test of `Reshape` (a function of the extents) -/
+def rtsOf (v : View) (newShape : Idx) : R Bool :=
+  if newShape.length = 1 then do
+    let m ← maximum v.dims
+    pure (decide (m = newShape.length))
+  else pure false
+
+/-- `Reshape` after the size test and the "reshape to series" test -/
+def reshapeTail (h : Heap α) (a : Arr) (newShape : Idx) (reshapeToSeries : Bool) : R (Heap α × (String ⊕ Arr)) := do
+  let c ← a.v.contiguous
+  if a.isC ∧ ¬ c ∧ ¬ reshapeToSeries then
+    let vs ← unrollGather h a
+    let (h', sid) := alloc h vs
+    let v ← View.root newShape
+    pure (h', .inr { v := v, sid := sid, base := 0, len := vs.length, isC := false })
+  else if c ∨ ¬ reshapeToSeries then
+    if a.isC then
+      let v ← View.root newShape a.v.start
+      pure (h, .inr { a with v := v })
+    else
+      let u ← Nd.unroll h a
+      let (h', sid, base, len) := implOf h u
+      let v ← View.root newShape
+      pure (h', .inr { v := v, sid := sid, base := base, len := len, isC := false })
+  else
+    let sd ← argmax a.v.dims
+    match a.v.step[sd.toNat]?, a.v.offset[sd.toNat]? with
+    | some st, some off =>
+      pure (h, .inr { a with v := { orig := a.v.orig, dims := newShape, start := a.v.start, step := [st], offset := [off], offStep := [st * off] } })
+    | _, _ => oob
+
+theorem reshape_unfold (h : Heap α) (a : Arr) (newShape : Idx) :
+    Nd.reshape h a newShape =
+      (if product newShape ≠ a.v.size then pure (h, .inl "size-mismatch")
+       else (rtsOf a.v newShape >>= fun rts => reshapeTail h a newShape rts)) := by
+  unfold Nd.reshape rtsOf reshapeTail
+  rfl
+
+theorem reshapeTail_sh (h : Heap α) {st : Int} {c c' : Arr} (s : Sh st c c') (g : Geo c'.v) (shape : Idx) (r : Bool) :
+    reshapeTail h c shape r = (reshapeTail h c' shape r).map (reshiftRes st) := by
+  have hv := s.view
+  have hC := s.isC
+  have hC' : c'.isC = true := by rw [s.eq]; exact s.isC
+  have hug := unrollGather_norm h (Or.inr ⟨st, s⟩) g
+  have hc : c = reshift st c' := by rw [s.eq, reshift_unshift st hC]
+  unfold reshapeTail
+  simp only [hv, shiftV_dims, shiftV_contiguous, hC, hC', shiftV_start, shiftV_step, shiftV_offset, shiftV_orig, hug]
+  cases c'.v.contiguous with
+  | error e => rfl
+  | ok b =>
+    simp only [bind, Except.bind, pure, Except.pure]
+    cases b with
+    | false =>
+      cases r with
+      | false =>
+        simp only [Bool.false_eq_true, not_false_eq_true, and_self, if_true]
+        cases unrollGather h c' with
+        | error e => rfl
+        | ok vs =>
+          simp only [alloc]
+          cases View.root shape with
+          | error e => rfl
+          | ok v => simp [Except.map, reshiftRes, reshift]
+      | true =>
+        simp only [Bool.false_eq_true, not_false_eq_true, not_true_eq_false, and_false, and_true, if_false,
+          or_self]
+        cases argmax c'.v.dims with
+        | error e => rfl
+        | ok sd =>
+          simp only
+          cases c'.v.step[sd.toNat]? with
+          | none => cases c'.v.offset[sd.toNat]? <;> rfl
+          | some st1 =>
+            cases c'.v.offset[sd.toNat]? with
+            | none => rfl
+            | some off =>
+              simp only [Except.map, reshiftRes, Sum.map_inr]
+              rw [hc]
+              simp [reshift, hC', shiftV]
+    | true =>
+      simp only [not_true_eq_false, false_and, and_false, if_false, true_or, if_true]
+      have hroot := shiftV_root shape c'.v.start st
+      rw [hroot]
+      cases View.root shape c'.v.start with
+      | error e => rfl
+      | ok v =>
+        simp only [Except.map, reshiftRes, Sum.map_inr]
+        rw [hc]
+        simp [reshift, hC']
+
 /-- **transfer: `Reshape`** (every request, every branch): on a C-backed array that is the `st`-shift of `c'`,
 `Reshape` returns what it returns on `c'`, shifted back when it is C-backed (the alias results) and unchanged when it is
 a Go-backed copy. -/
 theorem reshape_sh (h : Heap α) {st : Int} {c c' : Arr} (s : Sh st c c') (g : Geo c'.v) (shape : Idx) :
     Nd.reshape h c shape = (Nd.reshape h c' shape).map (reshiftRes st) := by
   have hv := s.view
-  have hC := s.isC
-  have hC' : c'.isC = true := by rw [s.eq]; exact s.isC
-  have hug := unrollGather_norm h (Or.inr ⟨st, s⟩) g
-  have hc : c = reshift st c' := by rw [s.eq, reshift_unshift st hC]
-  unfold Nd.reshape
-  simp only [hv, shiftV_size, shiftV_dims, shiftV_contiguous, hC, hC', shiftV_start, shiftV_step, shiftV_offset,
-    shiftV_orig, hug]
+  rw [reshape_unfold, reshape_unfold]
+  simp only [hv, shiftV_size]
   by_cases hsz : product shape ≠ c'.v.size
-  · simp only [bind, Except.bind, pure, Except.pure, if_pos hsz, Except.map, reshiftRes, Sum.map_inl, id]
-  · simp only [bind, Except.bind, pure, Except.pure, if_neg hsz]
-    cases (if shape.length = 1 then
-        (match maximum c'.v.dims with
-          | .error e => .error e
-          | .ok m => .ok (decide (m = shape.length)) : R Bool)
-        else .ok false : R Bool) with
+  · simp only [if_pos hsz, pure, Except.pure, Except.map, reshiftRes, Sum.map_inl, id]
+  · simp only [if_neg hsz]
+    have hr : rtsOf (shiftV c'.v st) shape = rtsOf c'.v shape := rfl
+    rw [hr]
+    cases rtsOf c'.v shape with
     | error e => rfl
     | ok r =>
-      simp only
-      cases c'.v.contiguous with
-      | error e => rfl
-      | ok b =>
-        simp only
-        cases b with
-        | false =>
-          cases r with
-          | false =>
-            simp only [Bool.false_eq_true, not_false_eq_true, and_self, if_true]
-            cases unrollGather h c' with
-            | error e => rfl
-            | ok vs =>
-              simp only [alloc]
-              cases View.root shape with
-              | error e => rfl
-              | ok v => simp [Except.map, reshiftRes, reshift]
-          | true =>
-            simp only [Bool.false_eq_true, not_false_eq_true, not_true_eq_false, and_false, and_true, if_false,
-              or_self]
-            cases argmax c'.v.dims with
-            | error e => rfl
-            | ok sd =>
-              simp only
-              cases c'.v.step[sd.toNat]? with
-              | none => cases c'.v.offset[sd.toNat]? <;> rfl
-              | some st1 =>
-                cases c'.v.offset[sd.toNat]? with
-                | none => rfl
-                | some off =>
-                  simp only [Except.map, reshiftRes, Sum.map_inr]
-                  rw [hc]
-                  simp [reshift, hC', shiftV]
-        | true =>
-          simp only [not_true_eq_false, false_and, and_false, if_false, true_or, if_true]
-          have hroot := shiftV_root shape c'.v.start st
-          rw [hroot]
-          cases View.root shape c'.v.start with
-          | error e => rfl
-          | ok v =>
-            simp only [Except.map, reshiftRes, Sum.map_inr]
-            rw [hc]
-            simp [reshift, hC']
+      simp only [bind, Except.bind]
+      exact reshapeTail_sh h s g shape r
 
 /-- `Reshape` on an array and on its normal form: same heap, same error value, results again in normal-form relation
 `Norm` up to the `1 << 30` bound (`Sh.bound`), which the caller supplies for the C-backed alias results -/
@@ -222,7 +261,7 @@ theorem apply_flat_sh (h : Heap α) {st : Int} {c c' : Arr} (s : Sh st c c') (g 
   have hn1 : (1 : Int) ≤ vals.length := by
     cases vals with
     | nil => exact absurd rfl hne
-    | cons x xs => simp; omega
+    | cons x xs => simp
   have hC' : c'.isC = true := by rw [s.eq]; exact s.isC
   have hst := s.nonneg
   have hb := s.bound
@@ -250,7 +289,7 @@ theorem apply_flat_sh (h : Heap α) {st : Int} {c c' : Arr} (s : Sh st c c') (g 
       (applySteps (unshift c.v.start (cAliasArr c [(vals.length : Int)])) 0 1) := by
     simp only [unshift, cAliasArr, shiftV_dims, rootView, applyDims, applySteps, List.length_cons, List.length_nil,
       uniform, List.replicate, Int.toNat_zero, List.set_cons_zero, SliceOK_cons, SliceOK_nil]
-    omega
+    exact ⟨by omega, hn1, by omega, by omega, trivial⟩
   rw [apply_norm h (Or.inr ⟨_, s1⟩) gN (by omega) (by simp [unshift, cAliasArr, rootView]) hok]
   rw [e] at gN hok ⊢
   rw [apply_norm h (Or.inr ⟨_, s2⟩) gN (by omega) (by simp [unshift, cAliasArr, rootView]) hok]
@@ -350,9 +389,8 @@ theorem zipWithInto_norm (f : α → α → α) (h : Heap α) {d d' s s' : Arr} 
         | error e => rfl
         | ok su =>
           simp only
-          cases du with
-          | alias dsid dlo dn =>
-            simp only
+          rcases du with ⟨dsid, dlo, dn⟩ | ⟨dv⟩
+          · simp only
             cases zipLoopAlias f dsid dlo.toNat su h 0 dn.toNat with
             | error e => rfl
             | ok h1 =>
@@ -360,8 +398,7 @@ theorem zipWithInto_norm (f : α → α → α) (h : Heap α) {d d' s s' : Arr} 
               cases sliceVals h1 (Slice.alias dsid dlo dn) with
               | error e => rfl
               | ok vs => exact storeUnrolled_norm h1 nd gd hbd vs
-          | fresh dv =>
-            simp only
+          · simp only
             cases sliceVals h su with
             | error e => rfl
             | ok sv =>
